@@ -57,9 +57,8 @@ class TableNode(BaseNode):
             else:
                 raise Exception(f"Incorrect format or missing empty line after header: {self.code}")
         # Remove whitespaces from all table rows
-        for l,line in enumerate(lines):
-            lines[l] = line.strip()
-            if line=='': del lines[l]
+        # (blank lines between the rows - one, several, or lines of blanks - do not belong to the table)
+        lines = [line.strip() for line in lines if line.strip()!='']
         # Read table and assign its values to the nodes
         ncols = len(table)
         csvtab = csv.reader(lines, delimiter=' ')
